@@ -36,6 +36,9 @@ type Program struct {
 	Ops []Op `json:"ops"`
 	// Seg > 0: the produced stream is additionally read from a connection that delivers it in segments of Seg bytes
 	Seg int `json:"seg,omitempty"`
+	// Snap > 0: ToByteArray() is also called after every Snap-th operation (a caller peeking at what it has so far): each
+	// time it must be exactly the bytes produced so far, and what it returned must still read the same at the end
+	Snap int `json:"snap,omitempty"`
 }
 
 var kinds = []string{"bool", "byte", "short", "ushort", "int3", "int", "long5", "long", "float", "double",
@@ -50,8 +53,12 @@ func drawArr(t *rapid.T, max int, elem *rapid.Generator[int64]) ([]int64, bool) 
 		return nil, true
 	case k == 1:
 		return []int64{}, false
-	case k == 2 && max > 300:
-		n := rapid.SampledFrom([]int{300, 1000, max}).Draw(t, "bign")
+	case k == 2 && max >= 300:
+		sizes := []int{255, 256, 257, 300, max} // around 256 elements (2 KiB of doubles) and the tier's maximum
+		if max >= 1000 {
+			sizes = append(sizes, 1000, 4097)
+		}
+		n := rapid.SampledFrom(sizes).Draw(t, "bign")
 		first := elem.Draw(t, "first")
 		a := make([]int64, n)
 		for i := range a {
@@ -511,6 +518,8 @@ func runProgram(p Program) *pbt.Result {
 	w := ref.NewW()
 	ends := make([]int, len(p.Ops))
 	kindSet := map[string]bool{}
+	var snaps [][]byte
+	var snapEnds []int
 	for i, op := range p.Ops {
 		golibWrite(o, op)
 		refWrite(w, op)
@@ -518,6 +527,19 @@ func runProgram(p Program) *pbt.Result {
 		kindSet[op.K] = true
 		if o.Size() != w.Len() {
 			return pbt.Fail("after op %d (%s): Size()=%d but %d bytes were produced by the reference", i, op.K, o.Size(), w.Len())
+		}
+		if p.Snap > 0 && i%p.Snap == 0 {
+			snap := o.ToByteArray()
+			if !bytes.Equal(snap, w.B[:w.Len()]) {
+				return pbt.Fail("ToByteArray() called after op %d (%s) returns %d bytes; %d bytes have been written so far (Size()=%d), the reference has %x…", i, op.K, len(snap), w.Len(), o.Size(), w.B[:min(w.Len(), 24)])
+			}
+			snaps = append(snaps, snap)
+			snapEnds = append(snapEnds, w.Len())
+		}
+	}
+	for k, snap := range snaps {
+		if !bytes.Equal(snap, w.B[:snapEnds[k]]) {
+			return pbt.Fail("the bytes ToByteArray() returned after %d bytes had been written changed when more was written", snapEnds[k])
 		}
 	}
 	got := o.ToByteArray()
@@ -619,12 +641,15 @@ func bucket(n int) int {
 
 var specPrograms = pbt.Register(pbt.Spec[Program]{
 	Prop: "C01", Name: "programs", Parallel: 8,
-	Rule:  "rapid-generated lists of 1-40 typed write operations over all Write* methods (boundary-biased arguments, nil/empty slices, threshold lengths); one program in three is also read back from a connection (net.Pipe) delivering the stream in segments of 1 .. 65536 bytes, with the byte strings compared only after the whole stream has been read; non-trivial = program with >= 2 different operation kinds; distinct by produced bytes",
+	Rule:  "rapid-generated lists of 1-40 typed write operations over all Write* methods (boundary-biased arguments, nil/empty slices, threshold lengths); one program in three is also read back from a connection (net.Pipe) delivering the stream in segments of 1 .. 65536 bytes, with the byte strings compared only after the whole stream has been read; in one program in four ToByteArray() is also called after every 1st-3rd operation and must return exactly what has been written so far (and keep reading the same); non-trivial = program with >= 2 different operation kinds; distinct by produced bytes",
 	Quick: 3000, Thorough: 200000,
 	Draw: func(t *rapid.T) Program {
 		p := Program{Ops: rapid.SliceOfN(rapid.Custom(drawOp), 1, 40).Draw(t, "ops")}
 		if rapid.IntRange(0, 2).Draw(t, "overconn") == 0 {
 			p.Seg = rapid.SampledFrom([]int{1, 7, 512, 1460, 4096, 8192, 65536}).Draw(t, "seg")
+		}
+		if rapid.IntRange(0, 3).Draw(t, "snap?") == 0 {
+			p.Snap = rapid.IntRange(1, 3).Draw(t, "snap")
 		}
 		return p
 	},
